@@ -87,7 +87,12 @@ def work(item):
     ecp_ls = [sorted(p['angular_momentum'][0] for p in el['ecp_potentials']) for el in b['elements'].values() if 'ecp_potentials' in el]
     # the local potential is the one of the highest momentum; formats that do not record its momentum assume it is (highest other) + 1
     ecp_not_contiguous = any(ls != list(range(len(ls))) for ls in ecp_ls)
-    facts = dict(libmol_name_ok=libmol_name_ok, has_ecp=has_ecp, zero_ecp_term=zero_ecp_term, maxl_ge_7=maxl >= 7, ecp_not_contiguous=ecp_not_contiguous)
+    # a fused shell in which a primitive has a zero coefficient for one member (and not for all): split into single-momentum shells it
+    # leaves a zero-coefficient primitive behind
+    fused_member_zero = any(frac_d(c[i]) == 0 for el in b['elements'].values() for sh in el.get('electron_shells', []) if len(sh['angular_momentum']) > 1
+                            for c in sh['coefficients'] for i in range(len(sh['exponents'])))
+    facts = dict(libmol_name_ok=libmol_name_ok, has_ecp=has_ecp, zero_ecp_term=zero_ecp_term, maxl_ge_7=maxl >= 7, ecp_not_contiguous=ecp_not_contiguous,
+                 fused_member_zero=fused_member_zero)
     hdr = None
     try:
         hdr = api._header_string(b)
@@ -169,7 +174,8 @@ def work(item):
                             if compare(direct, readers.read_formatted_basis_file(pout)):
                                 rec['bad'].append(('convert_same_as_export', 'convert_formatted_basis_file %s -> %s carries other data than a direct export' % (fmt, tgt), None))
                         except Exception as e:
-                            rec['bad'].append(('convert_same_as_export', 'conversion %s -> %s raises %s: %s' % (fmt, tgt, type(e).__name__, str(e)[:60]), None))
+                            rec['bad'].append(('convert_same_as_export', 'conversion %s -> %s raises %s: %s' % (fmt, tgt, type(e).__name__, str(e)[:60]),
+                                               'conv-unused-primitive' if 'Primitive is unused' in str(e) else None))
                 out['cases'].append(rec)
     finally:
         shutil.rmtree(tmp, ignore_errors=True)
@@ -835,7 +841,7 @@ def run(ctx):
                 R.nt(rec['hash'])
                 w = dict(basis=out['label'], fmt=rec['fmt'], header=rec['header'], elements=rec['subset'])
                 for rule, what, z in rec['bad']:
-                    R.violation(rule, 'readers.' + rec['fmt'], what, w, fmt=rec['fmt'], lost_ecp_only=(z == 'lost-ecp-only'), **rec['facts'])
+                    R.violation(rule, 'readers.' + rec['fmt'], what, w, fmt=rec['fmt'], lost_ecp_only=(z == 'lost-ecp-only'), conv_unused_primitive=(z == 'conv-unused-primitive'), **rec['facts'])
             pairs += out['pairs']
             nw += [(out['label'],) + tuple(c) for c in out['nw']]
             R.sample(dict(basis=out['label'], cases=len(out['cases'])))
